@@ -15,6 +15,9 @@ use std::io::{self, BufRead, Write};
 #[global_allocator]
 static GLOBAL: alloc::Counting = alloc::Counting;
 
+/// parallel calls that did not return within the watchdog time (their threads are leaked)
+static HANGS: std::sync::atomic::AtomicUsize = std::sync::atomic::AtomicUsize::new(0);
+
 fn exec_line(line: &str) -> String {
     if line.starts_with("R ") || line.starts_with("A ") {
         exec_reader::run_case(line)
@@ -22,13 +25,17 @@ fn exec_line(line: &str) -> String {
         exec_iter::run_case(line)
     } else if line.starts_with("W ") {
         exec_write::run_case(line)
-    } else if line.starts_with("X ") {
+    } else if line.starts_with("X ") || line.starts_with("Y ") {
+        if HANGS.load(std::sync::atomic::Ordering::SeqCst) >= 3 {
+            return "- SKIPPED".to_string();
+        }
         let before = exec_parallel::thread_count();
-        let r = exec_parallel::run_x(line);
-        format!("{} leak={}", r, leaked(before))
-    } else if line.starts_with("Y ") {
-        let before = exec_parallel::thread_count();
-        let r = exec_parallel::run_y(line);
+        let r = if line.starts_with("X ") { exec_parallel::run_x(line) } else { exec_parallel::run_y(line) };
+        if r.contains("HANG") {
+            HANGS.fetch_add(1, std::sync::atomic::Ordering::SeqCst);
+            // the hung call keeps its threads: a census would only repeat that
+            return format!("{} leak=hung", r);
+        }
         format!("{} leak={}", r, leaked(before))
     } else {
         "bad-case".to_string()
